@@ -340,11 +340,13 @@ class PendingWhile(_PendingLoop[While]):
             while_loop_orelse = self.nsp_global.expr_wraper(self.converted_orelse)
 
         # the main body of the oneliner while loop
+        # the loop variable is unused, but it must not capture a user name
+        while_loop_var = ol_name(OL_WHILE_TMP)
         while_loop_body = ListComp(
             elt=self.nsp_global.expr_wraper(self.converted_body),
             generators=[
                 comprehension(
-                    target=Name(id="_", ctx=Store()),
+                    target=Name(id=while_loop_var, ctx=Store()),
                     iter=Call(
                         func=Attribute(
                             value=Name(id="itertools", ctx=Load()),
@@ -355,7 +357,7 @@ class PendingWhile(_PendingLoop[While]):
                             Lambda(
                                 args=arguments(
                                     posonlyargs=[],
-                                    args=[arg(arg="_")],
+                                    args=[arg(arg=while_loop_var)],
                                     kwonlyargs=[],
                                     kw_defaults=[],
                                     defaults=[],
